@@ -801,6 +801,15 @@ def run_params_g12s(ctx, c):
         f1, f2 = [("a", "b"), ("xP", "yP"), ("p", "a"), ("b", "yP")][bit % 4]
         v1, v2 = rec.get(f1), rec.get(f2)
         rec.put(f1, v2); rec.put(f2, v1)
+    elif kind == "j0":
+        # a complete, otherwise sound parameter set over a curve with a = 0 (J(E) = 0, excluded by 5.2): secp256k1 in place of a 256-bit set
+        if l != 256:
+            kind = "none"
+        else:
+            for fld, val in (("p", 2 ** 256 - 2 ** 32 - 977), ("a", 0), ("b", 7), ("q", 0xFFFFFFFFFFFFFFFFFFFFFFFFFFFFFFFEBAAEDCE6AF48A03BBFD25E8CD0364141),
+                             ("xP", 0x79BE667EF9DCBBAC55A06295CE870B07029BFCDB2DCE28D959F2815B16F81798), ("yP", 0x483ADA7726A3C4655DA4FBFC0E1108A8FD17B448A68554199C47D08FFB10D4B8)):
+                rec.puti(fld, val, used[fld])
+            rec.puti("n", 1)
     r = x.call("g12sParamsVal", x.buf(rec.b))
     if rec.int("l") in (256, 512) and rec.int("p", rec.size("p") * rec.int("l") // 512) == 0:
         ctx.cls("g12s_p_zero")
@@ -815,7 +824,7 @@ def run_params_g12s(ctx, c):
 
 
 S_G12S = st.fixed_dictionaries({
-    "set": st.integers(0, 7), "kind": st.sampled_from(["none", "bit", "bit", "bit", "hibit", "hibit", "zero", "cof", "level", "q", "q", "yneg", "mulP", "offP", "swap"]),
+    "set": st.integers(0, 7), "kind": st.sampled_from(["none", "bit", "bit", "bit", "hibit", "hibit", "zero", "cof", "level", "q", "q", "yneg", "mulP", "offP", "swap", "j0"]),
     "f": st.sampled_from(["p", "a", "b", "q", "xP", "yP"]), "bit": st.integers(0, 4095), "v": st.sampled_from(QV)})
 
 
@@ -1324,9 +1333,78 @@ def replay_override(ctx, test, case):
             raise Fail("priNextPrimeW(%d) -> %s, expected %s" % (case["np"], out.int() or "FALSE", e or "FALSE"))
 
 
+# ---------------------------------------------------------------------------------------------------------------------
+# the validators of the algebra layer the scheme validators rest on: gf2IsValid (field polynomial irreducible), ecpIsValid (smooth curve)
+def run_algebra_valid(ctx, c):
+    x = ctx.x
+    W = x.W
+    from props.c06 import mk_curve_p, stack
+    if c["kind"] == "gf2":
+        m = c["m"]
+        if c["mw"]:
+            m = W * (2 + c["m"] % 3)            # degree a multiple of the word size: the leading coefficient sits in a word of its own
+        m = max(m, W + 4)
+        if c["tri"]:
+            k = 1 + c["k"] % (m - W)
+            pp = (m, k, 0, 0)
+            poly = (1 << m) | (1 << k) | 1
+        else:
+            k = 3 + c["k"] % (min(W - 1, m - W) - 2)
+            l = 2 + c["l"] % (k - 2)
+            l1 = 1 + c["l1"] % (l - 1)
+            pp = (m, k, l, l1)
+            poly = (1 << m) | (1 << k) | (1 << l) | (1 << l1) | 1
+        if c["known"]:
+            # irreducible polynomials found beforehand (an accepting case is rare among random exponents)
+            pp = KNOWN_IRRED[c["k"] % len(KNOWN_IRRED)]
+            m = pp[0]
+            poly = sum(1 << e for e in pp if e) | 1
+        P = x.buf(b"".join(v.to_bytes(8, "little") for v in pp))
+        F = x.out(x.call("gf2Create_keep", m, ret="z"))
+        if not x.call("gf2Create", F, P, stack(x, "gf2Create_deep", m)):
+            ctx.cls("gf2_not_created")
+            return
+        n = x.call("x_qr_n", F, ret="z")
+        r = x.call("gf2IsValid", F, stack(x, "gf2IsValid_deep", n))
+        want = G2.is_irred(poly)
+        if bool(r) != want:
+            raise Fail("gf2IsValid = %d for x^%d + %s + 1, which is %s" % (r, m, " + ".join("x^%d" % e for e in pp[1:] if e), "irreducible" if want else "reducible"))
+        ctx.cls("gf2_%s_%s" % ("tri" if pp[2] == 0 else "penta", "irred" if want else "red"), "gf2_mw" if m % W == 0 else "gf2_m")
+        ctx.nontrivial("gf2valid", m % W == 0, pp[2] == 0, want, m // 64)
+    else:
+        p = SMALL_PRIMES_EC[c["m"] % len(SMALL_PRIMES_EC)] if c["tri"] else BIG_PRIMES_EC[c["m"] % len(BIG_PRIMES_EC)]
+        t = int.from_bytes(expand("%d/%d" % (c["k"], c["l"]), 40), "little") % p
+        if c["known"]:
+            A, B = (-3 * t * t) % p, (2 * t * t * t) % p         # the singular locus 4 A^3 + 27 B^2 = 0
+            if c["l1"] % 3 == 1:
+                B = (B + 1) % p
+            elif c["l1"] % 3 == 2:
+                A = (A + 1) % p
+        else:
+            A, B = t, int.from_bytes(expand("%d/%d/b" % (c["k"], c["l1"]), 40), "little") % p
+        E, F, no, n = mk_curve_p(x, p, A, B)
+        fdeep = x.call("x_qr_deep", F, ret="z")
+        r = x.call("ecpIsValid", E, stack(x, "ecpIsValid_deep", n, fdeep))
+        want = (4 * A ** 3 + 27 * B * B) % p != 0
+        if bool(r) != want:
+            raise Fail("ecpIsValid = %d for y^2 = x^3 + %d x + %d over GF(%d): 4A^3 + 27B^2 mod p = %d" % (r, A, B, p, (4 * A ** 3 + 27 * B * B) % p))
+        ctx.cls("ecp_%s" % ("smooth" if want else "singular"), "ecp_small" if c["tri"] else "ecp_big")
+        ctx.nontrivial("ecpvalid", want, p.bit_length() // 32, c["known"], c["l1"] % 3)
+    ctx.sample(c)
+
+
+KNOWN_IRRED = [(128, 7, 2, 1), (192, 7, 2, 1), (256, 10, 5, 2), (131, 8, 3, 2), (163, 7, 6, 3), (233, 74, 0, 0), (283, 12, 7, 5), (409, 87, 0, 0), (571, 10, 5, 2), (167, 6, 0, 0), (191, 9, 0, 0),
+               (257, 12, 0, 0), (307, 8, 4, 2), (367, 21, 0, 0), (431, 5, 3, 1), (173, 10, 2, 1), (179, 4, 2, 1), (97, 6, 0, 0), (127, 1, 0, 0)]
+SMALL_PRIMES_EC = [5, 7, 11, 13, 17, 19, 23, 29, 31, 37, 41, 43, 47, 53, 59, 61, 67, 71, 73, 79, 83, 89, 97, 101, 251, 65521]
+BIG_PRIMES_EC = [2 ** 64 - 59, 2 ** 127 - 1, 2 ** 128 - 159, RB.std_params(128)["p"], RB.std_params(192)["p"], RB.std_params(256)["p"], 2 ** 255 - 19, 2 ** 521 - 1]
+S_ALG = st.fixed_dictionaries({"kind": st.sampled_from(["gf2", "gf2", "ecp"]), "m": st.integers(66, 600), "mw": st.booleans(), "tri": st.booleans(), "k": st.integers(0, 100000), "l": st.integers(0, 100000),
+                               "l1": st.integers(0, 100000), "known": st.booleans()})
+
+
 def tests(tier):
     q = tier == "quick"
     return [
+        Test("algebra_valid", S_ALG, run_algebra_valid, {"quick": 1500, "thorough": 30000}, ("asan", "w32")),
         Sweep("dates", sweep_dates, 8, CFG),
         Test("dates_rnd", S_DATE, run_date, {"quick": 2000, "thorough": 40000}, CFG),
         Sweep("primes_w", sweep_primes_w, 8, CFG),
